@@ -153,15 +153,28 @@ class FuncFacts:
                     ok = False
                 elif fn == name:
                     ok = False
-            if isinstance(v, ast.Call):
+            for c in ast.walk(v):
                 # results of calls are not substituted unless pure builtins
-                d = dotted(v.func) or ""
-                if d not in ("len", "min", "max", "int", "bool", "divmod", "abs"):
-                    ok = False
+                if isinstance(c, ast.Call):
+                    d = dotted(c.func) or ""
+                    if d not in ("len", "min", "max", "int", "bool", "divmod", "abs", "isinstance"):
+                        ok = False
             if ok:
                 out[name] = v
         self._defs = out
         return out
+
+    def one_def(self, name: str) -> Optional[ast.expr]:
+        """Value of the only assignment `name = <expr>` in the function (calls allowed), else None."""
+        hits = []
+        for n in ast.walk(self.func.node):
+            if isinstance(n, (ast.Assign, ast.AugAssign, ast.AnnAssign, ast.For, ast.With, ast.NamedExpr)):
+                if name in assigned_targets(n):
+                    hits.append(n)
+        if len(hits) == 1 and isinstance(hits[0], ast.Assign) and len(hits[0].targets) == 1 \
+                and isinstance(hits[0].targets[0], ast.Name) and name not in self.func.params:
+            return hits[0].value
+        return None
 
     def norm(self, e: ast.expr, subst: bool = True) -> str:
         return norm(e, self.folder, self.scope, self.single_defs() if subst else None)
@@ -194,6 +207,8 @@ class FuncFacts:
     def _mk(self, test: ast.expr, pol: bool) -> List[Fact]:
         out = []
         for e, p in self._decompose(test, pol):
+            if isinstance(e, ast.Constant):
+                continue
             if isinstance(e, ast.Compare) and len(e.ops) == 1 and not p and type(e.ops[0]) in _NEG:
                 e = ast.Compare(left=e.left, ops=[_NEG[type(e.ops[0])]()], comparators=e.comparators)
                 p = True
